@@ -245,6 +245,17 @@ class C19:
                       "getter %s reaches a mutation: %s" % (name, "; ".join("%s `%s`" % (ctx.line(g, n), ast.unparse(n)[:40]) for g, n, k in bad[:3])))
 
 
+def h8(ctx, rep):
+    rep.rule("C19.H8", "paths are normalised the same way when a node is inserted and when it is looked up: every provider.normalize_path call of the cache "
+             "passes the path alone (no for_display / other arguments)", expect_min=2)
+    H = ctx.prog.cls("HierarchicalCache")
+    for f in H.methods.values():
+        for n in ctx.own_nodes(f):
+            if isinstance(n, ast.Call) and isinstance(n.func, ast.Attribute) and n.func.attr == "normalize_path":
+                rep.check("C19.H8", "%s|normalize_path" % short(f.qname), ctx.line(f, n), len(n.args) == 1 and not n.keywords, "normalize_path(path)",
+                          "`%s`: the tree key built here is normalised differently from the key used by look-ups - the node can be inserted but never found / evicted" % ast.unparse(n))
+
+
 def run(ctx: Ctx, rep: Report, tier: str):
     c = C19(ctx, rep)
     c.h1()
@@ -252,3 +263,4 @@ def run(ctx: Ctx, rep: Report, tier: str):
     c.h3()
     c.h4_h6()
     c.h7()
+    h8(ctx, rep)
